@@ -21,7 +21,7 @@ def one(name):
         for p in props:
             t = time.time()
             r = subprocess.run(['/verif/check', p], capture_output=True, text=True, cwd='/verif', env=env)
-            lines = [l for l in r.stdout.split('\n') if l.startswith(('VIOLATION', 'UNDECIDED', 'OK', 'KNOWN', 'refuted'))]
+            lines = [l for l in r.stdout.split('\n') if l.startswith(('VIOLATION', 'UNDECIDED', 'OK', 'KNOWN', 'refuted', 'bounded stand-in', 'undecided unit'))]
             out[p] = {'rc': r.returncode, 'lines': lines[:10], 's': round(time.time() - t, 1)}
     finally:
         subprocess.run(['git', '-C', '/repo', 'worktree', 'remove', '--force', wt], capture_output=True)
@@ -35,4 +35,10 @@ with ThreadPoolExecutor(max_workers=a.j) as ex:
         for p, v in out.items():
             for l in v['lines']:
                 if l.startswith(('refuted', 'UNDECIDED')): print('      [%s] %s' % (p, l[:200]))
-json.dump(res, open(os.path.join(SD, 'sweep.json'), 'w'), indent=1)
+old = {}
+try:
+    old = json.load(open(os.path.join(SD, 'sweep.json')))
+except Exception:
+    pass
+old.update(res)
+json.dump(dict(sorted(old.items())), open(os.path.join(SD, 'sweep.json'), 'w'), indent=1)
